@@ -118,13 +118,14 @@ func (cache *TxCache) evictLeastLikelyToSelectTransactions() *evictionJournal {
 
 		// Select transactions (sorted).
 		for transactionsHeap.Len() > 0 {
-			// Always pick the "worst" transaction.
-			item := heap.Pop(transactionsHeap).(*transactionsHeapItem)
-
 			if len(transactionsToEvict) >= int(cache.config.NumItemsToPreemptivelyEvict) {
 				// We have enough transactions to evict in this pass.
+				// The heap is left untouched, so that no sender is skipped by the next pass.
 				break
 			}
+
+			// Always pick the "worst" transaction.
+			item := heap.Pop(transactionsHeap).(*transactionsHeapItem)
 
 			transactionsToEvict = append(transactionsToEvict, item.currentTransaction)
 			transactionsToEvictHashes = append(transactionsToEvictHashes, item.currentTransaction.TxHash)
